@@ -101,8 +101,17 @@ def h_permute(rp, l, o):
 
 def h_add(rp, l, o):
     other = hm.build_mps(hm.rep_to_rec(l['other'], l['onrm']))
-    rp.psi = hm.quiet(rp.psi.add, other, hm.gi(l['alpha']), hm.gi(l['beta']))
-    return dict(vector_scale=1.0 if rp.psi.bc == 'finite' else None, sig=dict())
+    me = rp.psi
+    fp_me, fp_other = hm.fingerprint(me), hm.fingerprint(other)
+    rp.psi = hm.quiet(me.add, other, hm.gi(l['alpha']), hm.gi(l['beta']))
+    sig = dict(cons=l['other']['cons'], gauge_shift=l['other']['qb'][0] != [0] * len(l['other']['qb'][0]))
+    # a binary operation returns a new MPS; none of its operands may change (state, norm, charges, legs of the tensors)
+    for name, fp, op in (('self', fp_me, me), ('other', fp_other, other)):
+        ch = hm.operand_changed(fp, op)
+        if ch:
+            rp.violation('add', 'operand-changed', dict(operand=name, changed=ch), operand=name, **sig)
+            return False
+    return dict(vector_scale=1.0 if rp.psi.bc == 'finite' else None, sig=sig)
 
 
 def h_group(rp, l, o):
